@@ -19,7 +19,7 @@ func init() {
 		Title:    "The layout-plugin wire format round-trips graphs exactly",
 		Patterns: []string{"./d2graph", "./d2plugin"},
 		Explanation: "Decides structural agreement of the serialiser and deserialiser: (1) field coverage — every field of Graph, Object, Edge, Attributes, Style, Scalar, Legend and the reference types that encoding/json skips (tag `json:\"-\"` or unexported) is either re-linked by DeserializeGraph (an assignment to that field exists there: Graph, Parent, Children, ChildrenArray, Src, Dst) or listed in the reviewed set of source-position fields that layout never reads; a new skipped field is reported; " +
-			"(2) the map keys the serialiser writes (AbsID, ChildrenArray, Src, Dst) are exactly the keys the deserialiser reads; (3) children are re-keyed by the lower-cased ID and objects/edges are appended in wire order; (4) both ends of the plugin protocol (execPlugin.Layout and the serving side) call the SerializeGraph/DeserializeGraph pair.",
+			"(2) the map keys the serialiser writes (AbsID, ChildrenArray, Src, Dst) are exactly the keys the deserialiser reads; (3) children are re-keyed by the lower-cased ID and objects/edges are appended in wire order; (4) both ends of the plugin protocol (execPlugin.Layout and the serving side) call the SerializeGraph/DeserializeGraph pair; (5) IDs are opaque on the wire: no function of the serialiser/deserialiser (and their helpers in serde.go) splits, searches or trims a string.",
 		NotCovered: "JSON fidelity of values (floats, URLs, pointers to labels), equality of layouts through a plugin",
 		Trust:      []string{"encoding/json round-trips exported, untagged fields of the model types"},
 		Technique:  "static analysis: struct-tag inventory vs assignment inventory, constant-key extraction on both sides",
@@ -209,5 +209,65 @@ func runC26(c *core.Check) {
 		if !found {
 			c.Fail("C26.protocol", "server:none", token.NoPos, "no serving function that deserialises, lays out and serialises found in d2plugin")
 		}
+	}
+	// (5) wire texts are opaque: neither half takes an ID string apart
+	c.Rule("C26.opaque-ids", "the serialiser and deserialiser never split, search or trim the ID strings they transport")
+	{
+		seen := map[*core.FuncInfo]bool{}
+		var work []*core.FuncInfo
+		for _, name := range []string{"DeserializeGraph", "SerializeGraph"} {
+			if fi := mustFunc(c, "d2graph", "", name); fi != nil {
+				work = append(work, fi)
+				seen[fi] = true
+			}
+		}
+		serdeFile := ""
+		if len(work) > 0 {
+			serdeFile = c.P.Fset.Position(work[0].Decl.Pos()).Filename
+		}
+		ncalls := 0
+		for len(work) > 0 {
+			fi := work[0]
+			work = work[1:]
+			counts := map[string]int{}
+			ast.Inspect(fi.Decl.Body, func(n ast.Node) bool {
+				call, ok := n.(*ast.CallExpr)
+				if !ok {
+					return true
+				}
+				callee := core.CalleeOf(fi.Pkg.TypesInfo, call)
+				if callee == nil || callee.Pkg() == nil {
+					return true
+				}
+				ncalls++
+				if callee.Pkg() == fi.Pkg.Types {
+					if h := c.P.Decl(callee); h != nil && h.Decl.Body != nil && !seen[h] && c.P.Fset.Position(h.Decl.Pos()).Filename == serdeFile {
+						seen[h] = true
+						work = append(work, h)
+					}
+					return true
+				}
+				if callee.Pkg().Path() != "strings" && callee.Pkg().Path() != "regexp" {
+					return true
+				}
+				nm := callee.Name()
+				apart := false
+				for _, pre := range []string{"Split", "Fields", "Index", "LastIndex", "Cut", "Trim", "Replace", "Find", "Match"} {
+					if strings.HasPrefix(nm, pre) {
+						apart = true
+					}
+				}
+				if apart {
+					key := fmt.Sprintf("opaque:%s:%s.%s", fname(fi), callee.Pkg().Name(), nm)
+					counts[key]++
+					if counts[key] > 1 {
+						key = fmt.Sprintf("%s#%d", key, counts[key])
+					}
+					c.Fail("C26.opaque-ids", key, call.Pos(), exprStr(call)+" takes a transported string apart: an ID is an opaque key on the wire (a quoted name may contain dots, arrows or brackets), so objects or edge endpoints whose IDs contain the separator are lost or mis-resolved after a plugin round trip")
+				}
+				return true
+			})
+		}
+		c.Decide(len(seen) >= 2 && ncalls >= 10, "C26.opaque-ids", "opaque:inventory", token.NoPos, fmt.Sprintf("%d functions of the wire format (%d calls) inspected, none takes a string apart", len(seen), ncalls), "the wire-format functions were not found")
 	}
 }
